@@ -674,21 +674,41 @@ class Scan:
         return closure
 
     def loop_top_rebinds(self, f):
-        """(loop variable, attribute) pairs that are rebound by the FIRST statement of the loop body that binds the
-        variable: per-call scratch state (written before it is read in every iteration)"""
+        """(loop variable, attribute) pairs that a statement at the top level of the loop body rebinds BEFORE the body
+        uses the variable's attribute: no earlier statement of the body calls a method on the loop variable or reads
+        that attribute of it.  Such an attribute is per-iteration scratch (rewritten before it is read), however the
+        value is computed."""
         out = set()
         for n in f.body_nodes(strict=True):
-            if isinstance(n, (ast.For, ast.AsyncFor)) and n.body:
-                lv = {m.id for m in ast.walk(n.target) if isinstance(m, ast.Name)}
-                st = n.body[0]
+            if not (isinstance(n, (ast.For, ast.AsyncFor)) and n.body):
+                continue
+            lv = {m.id for m in ast.walk(n.target) if isinstance(m, ast.Name)}
+            for i, st in enumerate(n.body):
+                stores = []
                 if isinstance(st, ast.Expr) and isinstance(st.value, ast.Call) and isinstance(st.value.func, ast.Name) \
                         and st.value.func.id == "setattr" and len(st.value.args) == 3 \
                         and isinstance(st.value.args[0], ast.Name) and st.value.args[0].id in lv:
-                    out.add((st.value.args[0].id, self.const_str(st.value.args[1]) or "<dynamic>"))
+                    stores.append((st.value.args[0].id, self.const_str(st.value.args[1]) or "<dynamic>"))
                 if isinstance(st, ast.Assign):
                     for t in st.targets:
                         if isinstance(t, ast.Attribute) and isinstance(t.value, ast.Name) and t.value.id in lv:
-                            out.add((t.value.id, t.attr))
+                            stores.append((t.value.id, t.attr))
+                for var, attr in stores:
+                    used_before = False
+                    for prev in n.body[:i]:
+                        for m in ast.walk(prev):
+                            if isinstance(m, ast.Call) and isinstance(m.func, ast.Attribute) \
+                                    and isinstance(m.func.value, ast.Name) and m.func.value.id == var:
+                                used_before = True        # a method of the item may read the attribute
+                            if isinstance(m, ast.Attribute) and m.attr == attr and isinstance(m.value, ast.Name) \
+                                    and m.value.id == var and isinstance(m.ctx, ast.Load):
+                                used_before = True
+                            if isinstance(m, ast.Call) and isinstance(m.func, ast.Name) and m.func.id == "getattr" \
+                                    and len(m.args) >= 2 and isinstance(m.args[0], ast.Name) and m.args[0].id == var \
+                                    and self.const_str(m.args[1]) == attr:
+                                used_before = True
+                    if not used_before:
+                        out.add((var, attr))
         return out
 
     def pass_field_instance_writes(self):
